@@ -4,6 +4,9 @@
  *
  * usage: pamh <cases-file>
  * case line (TAB separated): id user_hex pw_hex pwsrc opts sock wcap rcap eintr wdelay_ms errno0
+ *   eintr >= 100: a signal storm - the next (eintr-100) select calls are each interrupted after 0.3 x their timeout
+ *           (the harness sleeps that long, at most 300 ms, and returns EINTR); "overwait" counts selects entered
+ *           after more than twice the timeout had already been waited for the same transfer
  *   errno0: value of errno when pam_sm_authenticate is entered (what an earlier, unrelated system call of the host
  *           application left behind); -1 = leave as is
  *   wdelay_ms: sleep this long before the first write on the socket (models the process being descheduled)
@@ -79,6 +82,8 @@ int pam_prompt(pam_handle_t *pamh, int style, char **response, const char *fmt, 
 static long n_select, n_read, n_write, n_unguarded, n_nonfinite;
 static long wcap, rcap, wdelay_ms;
 static unsigned eintr_mask; /* bit0: first select, bit1: first write, bit2: first read get EINTR */
+static long eintr_storm, n_overwait;
+static double waited; /* seconds of interrupted waiting since the last byte was transferred */
 static int ready_r[FD_SETSIZE], ready_w[FD_SETSIZE];
 static double max_sel_timeout;
 
@@ -101,6 +106,16 @@ int __wrap_select(int nfds, fd_set *r, fd_set *w, fd_set *e, struct timeval *tv)
   if (!tv) n_nonfinite++;
   else { double t = tv->tv_sec + tv->tv_usec / 1e6; if (t > max_sel_timeout) max_sel_timeout = t; }
   if (eintr_mask & 1) { eintr_mask &= ~1u; errno = EINTR; return -1; }
+  if (eintr_storm > 0 && tv) {
+    double t = tv->tv_sec + tv->tv_usec / 1e6;
+    if (t > 0 && waited > 2 * t) n_overwait++;
+    double nap = 0.3 * t; if (nap > 0.3) nap = 0.3;
+    usleep((useconds_t)(nap * 1e6));
+    waited += 0.3 * t;
+    eintr_storm--;
+    errno = EINTR;
+    return -1;
+  }
   int ret = __real_select(nfds, r, w, e, tv);
   if (ret > 0) {
     for (int fd = 0; fd < nfds && fd < FD_SETSIZE; fd++) {
@@ -116,7 +131,9 @@ ssize_t __wrap_read(int fd, void *buf, size_t n) {
   if (fd < FD_SETSIZE) { if (!ready_r[fd]) n_unguarded++; ready_r[fd] = 0; }
   if (eintr_mask & 4) { eintr_mask &= ~4u; errno = EINTR; return -1; }
   if (rcap > 0 && (long)n > rcap) n = (size_t)rcap;
-  return __real_read(fd, buf, n);
+  ssize_t got = __real_read(fd, buf, n);
+  if (got > 0) waited = 0;
+  return got;
 }
 ssize_t __wrap_write(int fd, const void *buf, size_t n) {
   if (!is_sock(fd)) return __real_write(fd, buf, n);
@@ -135,7 +152,9 @@ ssize_t __wrap_send(int fd, const void *buf, size_t n, int flags) {
   if (fd >= 0 && fd < FD_SETSIZE) { if (!ready_w[fd]) n_unguarded++; ready_w[fd] = 0; }
   if (eintr_mask & 2) { eintr_mask &= ~2u; errno = EINTR; return -1; }
   if (wcap > 0 && (long)n > wcap) n = (size_t)wcap;
-  return __real_send(fd, buf, n, flags);
+  ssize_t put = __real_send(fd, buf, n, flags);
+  if (put > 0) waited = 0;
+  return put;
 }
 
 static char *unhex(const char *h) {
@@ -175,6 +194,8 @@ int main(int argc, char **argv) {
     char sockopt[512];
     if (strcmp(fields[5], "-")) { snprintf(sockopt, sizeof sockopt, "sock=%s", fields[5]); av[ac++] = sockopt; }
     wcap = atol(fields[6]); rcap = atol(fields[7]); eintr_mask = (unsigned)atoi(fields[8]);
+    eintr_storm = 0; n_overwait = 0; waited = 0;
+    if (eintr_mask >= 100) { eintr_storm = (long)eintr_mask - 100; eintr_mask = 0; }
     n_select = n_read = n_write = n_unguarded = n_nonfinite = 0; max_sel_timeout = 0;
     memset(ready_r, 0, sizeof ready_r); memset(ready_w, 0, sizeof ready_w);
     struct timespec t0, t1; clock_gettime(CLOCK_MONOTONIC, &t0);
@@ -183,7 +204,7 @@ int main(int argc, char **argv) {
     int rc = pam_sm_authenticate(&ph, flags, ac, av);
     clock_gettime(CLOCK_MONOTONIC, &t1);
     long ms = (t1.tv_sec - t0.tv_sec) * 1000 + (t1.tv_nsec - t0.tv_nsec) / 1000000;
-    printf("END\t%s\t%d\t%ld\t%ld\t%ld\t%ld\t%ld\t%.0f\t%ld\t%d\n", fields[0], rc, n_select, n_read, n_write, n_unguarded, n_nonfinite, max_sel_timeout, ms, ph.authtok_set);
+    printf("END\t%s\t%d\t%ld\t%ld\t%ld\t%ld\t%ld\t%.0f\t%ld\t%d\t%ld\n", fields[0], rc, n_select, n_read, n_write, n_unguarded, n_nonfinite, max_sel_timeout, ms, ph.authtok_set, n_overwait);
     fflush(stdout);
     free(user); free(pw); free(opts); free(ph.authtok);
   }
